@@ -39,6 +39,13 @@ def check(run, prog, tier):
     memorule.check(run, prog, "C03-I", ["quantarhei.builders.aggregate_base.AggregateBase",
                                         "quantarhei.builders.aggregates.Aggregate"],
                    "the Hamiltonian and dipole operator then belong to earlier energies, couplings or dipoles")
+    run.rule("C03-J", "the setters of molecules and aggregates use the converted value wherever they touch what they store "
+                      "(rule of C05-U15, builders only): the operators do not depend on the units active when a parameter was given",
+             minimum=6)
+    from . import c05
+    from ..report import RuleProxy
+    c05.rule_U15(RuleProxy(run, "C03-J", keep=lambda construct, key: construct.split(".")[0] in (
+        "Molecule", "AggregateBase", "Aggregate", "Mode", "SubMode", "OpenSystem")), prog)
     run.rule("C03-A", "point-dipole interaction formula (TA)", minimum=2)
     run.rule("C03-B", "Coulomb constant in Debye/Angstrom/fs^-1 units (constant folding)", minimum=2)
     run.rule("C03-C", "coupling matrix is written symmetrically", minimum=2)
